@@ -621,7 +621,8 @@ func runC14Hist(r *fw.Run, h *c14Hist) []string {
 
 // c14BeforeServe: Shutdown is issued on a bound service before the serving call has started (race=false),
 // or concurrently with its start (race=true). The serving call must return without serving anyone.
-func c14BeforeServe(r *fw.Run, timeout, race bool) []string {
+func c14BeforeServe(r *fw.Run, timeout, race bool, skipServe ...bool) []string {
+	skip := len(skipServe) > 0 && skipServe[0] && !race // the first listener is never served: Shutdown, then bound again at once
 	var viol []string
 	fail := func(class, format string, a ...interface{}) { viol = append(viol, class+"\x00"+fmt.Sprintf(format, a...)) }
 	svc, err := varlink.NewService("Verif", "Life", "1", "u")
@@ -651,14 +652,20 @@ func c14BeforeServe(r *fw.Run, timeout, race bool) []string {
 		L.Rec("shutdown-call", "")
 		svc.Shutdown()
 		L.Rec("shutdown-return", "")
-		go serve()
+		if skip {
+			done <- nil
+		} else {
+			go serve()
+		}
 	}
 	if st := L.State(); st.closeCalls == 0 {
 		fail("shutdown-did-not-close-listener", "Shutdown on a bound service that is not serving yet returned without closing the listener")
 	}
 	// a connection arriving now must never be served
 	c, _ := L.NewConn(1, false)
-	L.waitUntil(3*time.Millisecond, func() bool { return c.accepted })
+	if !skip {
+		L.waitUntil(3*time.Millisecond, func() bool { return c.accepted })
+	}
 	if c.Accepted() {
 		if err := roundTrip(c.client, 2*time.Second); err == nil {
 			fail("served-after-shutdown", "Shutdown was issued before the serving call started; a connection arriving afterwards was accepted and served")
@@ -671,6 +678,47 @@ func c14BeforeServe(r *fw.Run, timeout, race bool) []string {
 		st := L.State()
 		fail("serve-never-returns", "Shutdown was issued on the bound service before (or while) the serving call started; the serving call is still running 20 s later (listener closed=%v, loop parked in Accept=%v)", st.closed, st.parked)
 		L.Close()
+		return viol
+	}
+	// The same object, bound and served again (seeded change C14-O: state left by the Shutdown that came before serving
+	// is only cleared at the end of a serving call that got as far as its teardown).
+	L2 := newCtlListener(r)
+	svc.VerifSetListener(L2)
+	done2 := make(chan error, 1)
+	go func() { done2 <- svc.DoListen(context.Background(), to) }()
+	if !L2.WaitParked(lifeBound) {
+		select {
+		case e := <-done2:
+			fail("cannot-serve-again", "after a Shutdown that came before its serving call, and that call's return, the object was given a new listener; DoListen returned %v at once", e)
+		default:
+			fail("accept-not-reached", "second period after a Shutdown that came before the first serving call: the accept loop does not reach Accept")
+			svc.Shutdown()
+			L2.Close()
+		}
+		return viol
+	}
+	lr := &lifeRun{r: r, h: &c14Hist{}, svc: svc, L: L2}
+	if c2 := lr.connect(true); c2 != nil {
+		if err := roundTrip(c2.client, lifeBound); err != nil {
+			fail("accepted-connection-not-served", "second period after a Shutdown that came before the first serving call: %v", err)
+		}
+		c2.client.Close()
+		lr.waitClosed(c2, "client closed it")
+	}
+	viol = append(viol, lr.viol...)
+	svc.Shutdown()
+	if st := L2.State(); st.closeCalls == 0 {
+		fail("shutdown-did-not-close-listener", "second period of an object whose first Shutdown came before serving: Shutdown returned without closing the period's listener")
+	}
+	select {
+	case e := <-done2:
+		if e != nil {
+			fail("shutdown-returned-error", "second period returned %v after Shutdown found the loop waiting in Accept", e)
+		}
+	case <-time.After(20 * time.Second):
+		st := L2.State()
+		fail("serve-never-returns", "second period of an object whose first Shutdown came before serving: the serving call is still running 20 s after Shutdown (listener closed=%v, loop parked in Accept=%v)", st.closed, st.parked)
+		L2.Close()
 	}
 	return viol
 }
@@ -807,11 +855,11 @@ func runC14(r *fw.Run) {
 	// Shutdown before / while the serving call starts
 	for k := 0; k < r.Pick(60, 600); k++ {
 		race := k%3 != 0
-		for _, v := range c14BeforeServe(r, k%2 == 0, race) {
+		for _, v := range c14BeforeServe(r, k%2 == 0, race, k%6 == 3) {
 			parts := strings.SplitN(v, "\x00", 2)
 			r.Violation("C14 "+parts[0], fmt.Sprintf("bound service, Shutdown before the serving call (racing=%v): %s", race, parts[1]), &c14Hist{Steps: []string{"sd-before-serve"}, Timeout: k%2 == 0, Late: race})
 		}
-		r.Case(fw.Hash("before-serve", fmt.Sprint(k%2 == 0, race)), true)
+		r.Case(fw.Hash("before-serve", fmt.Sprint(k%2 == 0, race, k%6 == 3)), true)
 		r.Count("shutdown_before_serve_runs", 1)
 		r.Distinct("shutdown_placements", map[bool]string{false: "sd-before-serve", true: "sd-racing-serve-start"}[race])
 		if r.ViolationCount() > 12 {
